@@ -49,6 +49,8 @@ type params struct {
 var profiles = map[string][]string{
 	"mixed":    {"pause", "continue", "continue", "state", "tick", "tick", "component", "component", "field", "field", "buffers", "buffers", "progress", "progress", "list"},
 	"control":  {"pause", "continue", "continue", "state", "list"},
+	// pause/continue storm against inspection requests: aims at windows inside the control handlers themselves
+	"ctrlrace": {"pause", "continue", "continue", "continue", "component", "field", "buffers", "now"},
 	"inspect":  {"component", "component", "field", "field", "field", "pause", "continue", "continue", "state"},
 	"tick":     {"tick", "tick", "tick", "state", "pause", "continue"},
 	"buffers":  {"buffers", "buffers", "buffers", "state", "pause", "continue"},
@@ -104,6 +106,10 @@ func plan(tier string, seed int64) []kit.Batch {
 			procs := []int{2, 4, 8, 16}[len(bs)%4]
 			bs = append(bs, kit.Batch{Name: fmt.Sprintf("%s-%d", pr, len(bs)), Seed: seed*100003 + int64(len(bs)), N: n,
 				Params: kit.MkParams(params{Profile: pr, NumReqs: nreq, MaxHTTP: maxHTTP}), Env: []string{fmt.Sprintf("GOMAXPROCS=%d", procs)}})
+		}
+		for _, procs := range []int{4, 16} {
+			bs = append(bs, kit.Batch{Name: fmt.Sprintf("ctrlrace-%d", len(bs)), Seed: seed*100003 + int64(len(bs)), N: n,
+				Params: kit.MkParams(params{Profile: "ctrlrace", NumReqs: nreq * 4, MaxHTTP: maxHTTP * 10}), Env: []string{fmt.Sprintf("GOMAXPROCS=%d", procs)}})
 		}
 	}
 	return bs
